@@ -127,6 +127,22 @@ fn main() {
     if args.len() < 3 {
         usage();
     }
+    if args[1] == "gen" {
+        // pvmc gen <ID> <tier> <dir>: writes the generated surface programs
+        if args.len() < 5 {
+            usage();
+        }
+        match pvmc::surface::generate(&args[2], args[3] == "quick", &args[4]) {
+            Ok(n) => {
+                println!("generated {} programs for {} ({})", n, args[2], args[3]);
+                std::process::exit(0);
+            }
+            Err(e) => {
+                eprintln!("machinery error: cannot write generated sources: {}", e);
+                std::process::exit(2);
+            }
+        }
+    }
     let id = args[1].clone();
     // the tier named on the command line wins; VERIF_TIER is only a fallback
     let tier = args[2].clone();
